@@ -289,6 +289,23 @@ def run(ctx):
         k = rng.choice([2, 3, 3, 4, 5, 6])
         add("lpc", " ".join(rng.choice(alphabet if rng.random() < 0.5 else NOISE_TOKENS) for _ in range(k)), "seq-check")
 
+    # the pattern grammar: every pair of pattern forms joined by every binary pattern operator (ranges, ||, &&, as) and the
+    # open-range prefixes/suffixes, in every position where the parser expects a pattern
+    atoms = ["1", "-5", "2.5", '"s"', ":sym", "`c`", "nil", "true", "a", "A", "A::B", "Foo(a)", "Foo(a: 1)", "[1, a]", "[1, *r]",
+             "%[a, 2]", "{a}", "@{a}", "{k: v}", "(1 || 2)", "(a)", "([1])", "> 5", "< a", "== 2", "%/x/", "1...3", "_", "*a", "^[1]",
+             "\\w[a b]", "a as b"]
+    pops = ["...", "<..", "..<", "<.<", " || ", " && ", " as "]
+    pctx = ["switch x\ncase %s\n  1\nend", "y = x match %s", "for %s in x\nend", "do\n  1\ncatch %s\n  2\nend", "var %s = x"]
+    if ctx.quick:
+        pctx = pctx[:3]
+    for c in pctx:
+        for x in atoms:
+            for o in ("...", "<..", "..<", "<.<"):
+                add("lp", c % (o + x), "pattern-grid")
+                add("lp", c % (x + o), "pattern-grid")
+            for y in atoms:
+                for o in pops:
+                    add("lp", c % (x + o + y), "pattern-grid")
     # structured multi-line constructs (doc/block comments, strings, collections, …) with independent per-line indentation
     for k, (mode, b, name) in enumerate(LC.multiline_grid()):
         if mode == "n":
